@@ -314,7 +314,7 @@ func augmentCall(call *Call, f *ast.FuncDecl) {
 			str = popFmt(func(v uint64) string {
 				return strconv.FormatInt(int64(int16(v)), 10)
 			})
-		case "int32":
+		case "int32", "rune":
 			str = popFmt(func(v uint64) string {
 				return strconv.FormatInt(int64(int32(v)), 10)
 			})
@@ -322,7 +322,7 @@ func augmentCall(call *Call, f *ast.FuncDecl) {
 			str = popFmt(func(v uint64) string {
 				return strconv.FormatInt(int64(v), 10)
 			})
-		case "uint", "uint8", "uint16", "uint32", "uint64":
+		case "uint", "uint8", "uint16", "uint32", "uint64", "uintptr", "byte":
 			str = popFmt(func(v uint64) string {
 				return strconv.FormatUint(v, 10)
 			})
@@ -340,7 +340,8 @@ func augmentCall(call *Call, f *ast.FuncDecl) {
 			})
 			str = fmt.Sprintf("%s(%s, len=%s)", t, name, lenStr)
 		default:
-			if strings.HasPrefix(t, "*") {
+			if strings.HasPrefix(t, "*") || strings.HasPrefix(t, "map[") || strings.HasPrefix(t, "chan ") || t == "func" {
+				// Pointers, maps, channels and funcs are one word.
 				str = fmt.Sprintf("%s(%s)", t, popName())
 			} else if strings.HasPrefix(t, "[]") {
 				name := popName()
